@@ -5,6 +5,8 @@ package main
 import (
 	"fmt"
 	"go/token"
+	"go/types"
+	"sort"
 	"strings"
 
 	"golang.org/x/tools/go/ssa"
@@ -83,6 +85,8 @@ func checkC15(c *Ctx) Meta {
 	c.Rule("C15-BOUND", "a space is selected or created only behind the comparison that keeps the running total within the target (never exceeds); the smallest usable bit length equals the chain library's minimum (shortfall bound)", 5)
 	c.Rule("C15-ACCUM", "running totals are what they claim to be: the per-directory total starts at 0 for every directory of a per-directory request; a free-disk requirement built in a loop is the sum over the loop (its argument is an accumulator, not the last term); a reconfiguration marks every space of the *previous* selection unused before it installs the new one", 4)
 	checkC15Accum(c)
+	c.Rule("C15-GUARD", "a configuration request touches the keeper only after it has won the `configuring` flag: in every Configure* entry point no store to a keeper field and no indexing/creation step is reachable unless the compare-and-swap on `configuring` succeeded, so a request refused as concurrent changes nothing; capacity arithmetic on unsigned sizes cannot wrap (no a-b without a guard b<=a)", 6)
+	checkC15Guard(c)
 
 	pkgS := "poc/engine/spacekeeper/capacity"
 	sk := "(*" + pkgCapacity + ".SpaceKeeper)."
@@ -690,6 +694,112 @@ func checkC15Accum(c *Ctx) {
 			} else {
 				c.Bad(rule, key, c.Pos(f.Pos()), "the spaces of the previous selection are not marked unused before the new selection is installed: after a shrinking reconfiguration the dropped spaces still count as selected (per-directory totals exceed the request; actions on them succeed)")
 			}
+		}
+	}
+}
+
+// checkC15Guard: C15-GUARD.
+func checkC15Guard(c *Ctx) {
+	rule := "C15-GUARD"
+	var fns []*ssa.Function
+	for fn := range c.AllFuncs {
+		if pkgOf(fn) == pkgCapacity && fn.Parent() == nil && strings.HasPrefix(fn.Name(), "Configure") && fn.Signature.Recv() != nil {
+			fns = append(fns, fn)
+		}
+	}
+	sort.Slice(fns, func(i, j int) bool { return fns[i].Name() < fns[j].Name() })
+	for _, f := range fns {
+		var cas *ssa.Call
+		allInstrs(f, func(in ssa.Instruction) {
+			if cl, ok := in.(*ssa.Call); ok && strings.HasPrefix(calleeID(cl), "sync/atomic.CompareAndSwap") {
+				if _, fld, _, isF := fieldOfAddr(cl.Call.Args[0]); isF && fld == "configuring" {
+					cas = cl
+				}
+			}
+		})
+		if cas == nil {
+			continue // wrappers that delegate to a guarded entry point
+		}
+		key := f.Name() + ":effects-only-after-winning-the-flag"
+		var effects []ssa.Instruction
+		for _, g := range withClosures(f) {
+			for _, a := range fieldAccesses(g) {
+				if a.Kind == "store" && a.Type == pkgCapacity+".SpaceKeeper" && !isFreshObject(a.Base) {
+					effects = append(effects, a.In)
+				}
+			}
+			allInstrs(g, func(in ssa.Instruction) {
+				if callee := staticCallee(in); callee != nil && pkgOf(callee) == pkgCapacity {
+					n := callee.Name()
+					if n == "generateInitialIndex" || n == "applyConfiguredWorkSpaces" || strings.HasPrefix(n, "generateFill") || n == "upgradeMassDBFile" || n == "prepareDirs" {
+						effects = append(effects, in)
+					}
+				}
+			})
+		}
+		tests := boolTestsOf(f, cas)
+		if len(tests) == 0 {
+			c.Bad(rule, key, c.Pos(cas.Pos()), "the result of the compare-and-swap on `configuring` is not tested")
+			continue
+		}
+		// effects in closures are reached through the closure's call sites: check the outer function's
+		// instructions, and for closures require that they are only called after the CAS
+		var outer []ssa.Instruction
+		for _, e := range effects {
+			if e.Parent() == f {
+				outer = append(outer, e)
+			} else {
+				// the closure body runs where it is called
+				for _, site := range directClosureCalls(f, e.Parent()) {
+					outer = append(outer, site)
+				}
+			}
+		}
+		if ok, at := unreachableWhenCut(f, boolEdgeCut(tests, true), outer); ok && len(outer) > 0 {
+			c.OK(rule, key, c.Pos(cas.Pos()), fmt.Sprintf("%d effects, all behind the successful compare-and-swap", len(outer)))
+		} else if len(outer) == 0 {
+			c.Bad(rule, key, c.Pos(f.Pos()), "reason=anchor-missing: no effect found in "+f.Name())
+		} else {
+			c.Bad(rule, key, c.Pos(at.Pos()), "a keeper field is written or an indexing/creation step runs before the request has won the `configuring` flag: a request that is then refused as concurrent has already replaced the directories of the configuration in progress, whose new spaces land in the wrong directory")
+		}
+	}
+	// unsigned capacity arithmetic
+	if f := c.MustFn(rule, "poc/engine/spacekeeper/capacity", "(*SpaceKeeper).IsCapacityAvailable"); f != nil {
+		key := "IsCapacityAvailable:no-unsigned-wrap"
+		bad := ""
+		allInstrs(f, func(in ssa.Instruction) {
+			bo, ok := in.(*ssa.BinOp)
+			if !ok || bo.Op != token.SUB {
+				return
+			}
+			b, isB := bo.X.Type().Underlying().(*types.Basic)
+			if !isB || b.Info()&types.IsUnsigned == 0 {
+				return
+			}
+			// guarded by a dominating comparison Y <= X / X >= Y ?
+			guarded := false
+			allInstrs(f, func(x ssa.Instruction) {
+				iff, isI := x.(*ssa.If)
+				if !isI || !iff.Block().Dominates(bo.Block()) {
+					return
+				}
+				if cmp, isC := iff.Cond.(*ssa.BinOp); isC {
+					if (cmp.Op == token.LEQ || cmp.Op == token.LSS) && cmp.X == bo.Y && cmp.Y == bo.X {
+						guarded = true
+					}
+					if (cmp.Op == token.GEQ || cmp.Op == token.GTR) && cmp.X == bo.X && cmp.Y == bo.Y {
+						guarded = true
+					}
+				}
+			})
+			if !guarded {
+				bad = c.Pos(bo.Pos()) + " "
+			}
+		})
+		if bad != "" {
+			c.Bad(rule, key, strings.TrimSpace(bad), "an unsigned size is computed as a difference without a guard: when the directory already holds more plotted bytes than requested the difference wraps to ~2^64 and a request that needs no new space is refused as exceeding the free disk space")
+		} else {
+			c.OK(rule, key, c.Pos(f.Pos()), "the capacity test adds (free + plotted < requested); no unguarded unsigned subtraction")
 		}
 	}
 }
